@@ -53,6 +53,9 @@ type closureInfo struct {
 }
 
 type Loc struct {
+	slice Term   // kind 3: the slice value and plain index (for trigger-friendly reads)
+	pidx  Term
+	es    string
 	kind  int // 1 field, 2 cell, 3 elem, 4 struct object (ref), 5 array-in-cell element
 	arr   string
 	ref   Term
@@ -207,6 +210,9 @@ func (v *FV) load(st *State, l *Loc) Term {
 	case 2:
 		return fmt.Sprintf("(select %s %s)", v.heapGet(st.snap, l.arr), l.ref)
 	case 3:
+		if l.slice != "" {
+			return v.sliceElem(v.heapGet(st.snap, l.arr), l.es, l.slice, l.pidx)
+		}
 		return fmt.Sprintf("(select (select %s %s) %s)", v.heapGet(st.snap, l.arr), l.ref, l.idx)
 	case 4:
 		return v.loadStruct(st.snap, l.ty, l.ref)
@@ -704,6 +710,21 @@ func (v *FV) loopHeader(fr *Frame, li *loopInfo, st *State) *State {
 	if fr.con != nil && fr.con.LoopFrame != nil {
 		frameLocs, hasFrame = fr.con.LoopFrame[li.ordinal]
 	}
+	if !hasFrame && fr.con != nil && fr.isTop && fr.con.HasMod {
+		// default loop frame: the function's own modifies clause (checked like any invariant)
+		all := false
+		for _, m := range fr.con.Modifies {
+			if m == "*" {
+				all = true
+			}
+		}
+		if !all {
+			frameLocs, hasFrame = fr.con.Modifies, true
+			if frameLocs == nil {
+				frameLocs = []string{}
+			}
+		}
+	}
 	var frameArrs []string
 	var frameAllowed map[string][]Term
 	if hasFrame {
@@ -958,7 +979,7 @@ func (v *FV) execInstr(fr *Frame, st *State, instr ssa.Instruction) {
 		case *types.Slice:
 			s := v.val(fr, in.X)
 			v.oblige("bounds", "", posStr(v.eng.fset, in.Pos()), "index in range", st.reach, v.inRange(idx, fmt.Sprintf("(sl_len %s)", s.T)))
-			fr.locs[in] = &Loc{kind: 3, arr: v.elemArray(t.Elem()), ref: fmt.Sprintf("(sl_arr %s)", s.T), idx: v.iadd(fmt.Sprintf("(sl_off %s)", s.T), idx), ty: t.Elem()}
+			fr.locs[in] = &Loc{kind: 3, arr: v.elemArray(t.Elem()), ref: fmt.Sprintf("(sl_arr %s)", s.T), idx: v.iadd(fmt.Sprintf("(sl_off %s)", s.T), idx), ty: t.Elem(), slice: s.T, pidx: idx, es: v.sortOf(t.Elem())}
 			fr.vals[in] = TV{T: "0", Ty: in.Type(), Sort: "Int"}
 		case *types.Pointer:
 			at := t.Elem().Underlying().(*types.Array)
